@@ -368,6 +368,11 @@ func (vc *VC) trIdent(env *SpecEnv, name string) Val {
 			return v
 		}
 	}
+	// a local variable of the function that is not in scope on this path (e.g. declared after an early return):
+	// an arbitrary value of its type; clauses must guard such uses themselves
+	if t, ok := vc.localTypes[name]; ok && env.st != nil {
+		return vc.freshVal(&State{pc: "true", heap: map[string]string{}}, t, "outofscope."+name)
+	}
 	vc.specErr("unknown identifier %s", name)
 	return intVal("0")
 }
